@@ -2,6 +2,7 @@ package main
 
 import (
 	"fmt"
+	"net"
 	"go/token"
 	"go/types"
 	"math"
@@ -997,6 +998,26 @@ func (st *State) opaqueStrOp(op token.Token, a, b Value) Value {
 			res = true
 			for i := range oa.inj {
 				res = st.andV(res, st.equal(types.Typ[types.Uint8], oa.inj[i], ob.inj[i]))
+			}
+		case (oa != nil && oa.inj != nil && oa.fam == "ip:" && ob == nil) || (ob != nil && ob.inj != nil && ob.fam == "ip:" && oa == nil):
+			// symbolic address text against a concrete string: equal iff the string is the literal of that address
+			o, other := oa, b
+			if o == nil {
+				o, other = ob, a
+			}
+			cs, ok := other.(string)
+			if !ok {
+				st.unsupported("equality on opaque strings")
+			}
+			ip := net.ParseIP(cs)
+			if ip == nil || ip.String() != cs {
+				res = false
+			} else {
+				c16 := ip.To16()
+				res = true
+				for i := range o.inj {
+					res = st.andV(res, st.equal(types.Typ[types.Uint8], o.inj[i], uint64(c16[i])))
+				}
 			}
 		default:
 			st.unsupported("equality on opaque strings")
